@@ -296,6 +296,18 @@ for _k, _v in ROUND12.items():
     CHECKS[_k]["text"] = CHECKS[_k]["text"] + _v
 
 
+ROUND13 = {
+    "C03": " Present cells holding an infinity; NetCDF cells a hair beside the marker.",
+    "C06": " Tiny, many-digit and fractional weights over crisp layers; the weighted union in programs written out and loaded again.",
+    "C07": " Column names differing in letter case or blanks only.",
+    "C13": " Texts the parser refuses, through the tool.",
+    "C14": " Rings of commands producing texts for path inputs; a conversion with an empty Direction beside the ring.",
+    "C20": " Declared text / number outputs of commands that have not run; refused references given as names and as objects.",
+}
+for _k, _v in ROUND13.items():
+    CHECKS[_k]["text"] = CHECKS[_k]["text"] + _v
+
+
 def main():
     props = [json.loads(l) for l in open(os.path.join(VERIF, "properties.jsonl"))]
     checks = []
